@@ -170,7 +170,9 @@ def battery(nres):
 
 KINDS = [('SOL', ['OW', 'HW1', 'HW2']), ('SOL', ['OW']), ('NA', ['NA']), ('LIG', ['C1', 'C2', 'N1', 'O1', 'H1']),
          ('LIG', ['C1', 'C2']), ('1AB', ['X1']), ('AB', ['X1']), ('12AB', ['Y1', 'Y2']), ('2AB', ['Y1', 'Y2']),
-         ('POPC', ['C%d' % i for i in range(12)]), ('B', ['Q']), ('AAAAA', ['ABCDE', 'FGHIJ'])]
+         ('POPC', ['C%d' % i for i in range(12)]), ('B', ['Q']), ('AAAAA', ['ABCDE', 'FGHIJ']),
+         # kinds with the same residue name and size but other atom names / another atom order (isomers, another force field)
+         ('SOL', ['HW1', 'OW', 'HW2']), ('SOL', ['O', 'H1', 'H2']), ('LIG', ['C2', 'C1']), ('NA', ['Na'])]
 
 
 def small_files():
@@ -185,6 +187,10 @@ def small_files():
 def random_file(rng, max_res):
     nres = rng.choice([1, 2, 3, rng.randint(1, max_res)])
     pool = rng.sample(KINDS, rng.randint(1, 5))
+    if rng.random() < 0.3:
+        # make sure two kinds of the same name and size alternate in the file
+        twin = rng.choice([[KINDS[0], KINDS[-4], KINDS[-3]], [KINDS[4], KINDS[-2]], [KINDS[2], KINDS[-1]]])
+        pool = list(twin) + pool[:1]
     mode = rng.choice(['inc', 'blocks', 'restart', 'collide'])
     residues = []
     rid = rng.choice([1, 1, 7, 99990])
